@@ -602,7 +602,17 @@ class Emit:
         return None
 
     def wb(self, names, borrows):
-        return "".join("let %s := (%s %s %s %s);\n    " % (borrows[v][0], self.mapfn(2), borrows[v][0], borrows[v][1], v) for v in names if v in borrows and borrows[v][0] != "__opt__")
+        """write the changed borrowed locals through to what they were borrowed from (and on, if that is itself a borrow)"""
+        out, seen, work = "", set(), list(names)
+        while work:
+            v = work.pop(0)
+            if v in borrows and borrows[v][0] != "__opt__" and v not in seen:
+                seen.add(v)
+                V, k = borrows[v][0], borrows[v][1]
+                setfn = borrows[v][2][2] if len(borrows[v]) > 2 and borrows[v][2] else self.mapfn(2)
+                out += "let %s := (%s %s %s %s);\n    " % (V, setfn, V, k, v)
+                work.append(V)
+        return out
 
     def mapfn(self, i):
         return self.cfg.get("mapfns", ("mapGet", "mapGetD", "mapSet"))[i]
@@ -627,14 +637,23 @@ class Emit:
             pre = ("let (%s, __flt) := (List.foldl (fun ((%s, __acc) : _ × List _) __it => (match __it with\n    | %s => (let (__keep, %s) := (%s);\n    (%s, if __keep then __acc ++ [__it] else __acc)))) (%s, []) %s);\n    "
                    % (cv, cv, self.pat(clo[1][0]), cv, body, cv, cv, self.atom(recv)))
             return pre + self.cps([("let", s[1], rebuild(("path", ["__flt"]))) + tuple(s[3:])] + rest, tail, K, borrows, optb)
+        if s[0] == "let" and s[2][0] == "try" and self.cfg.get("resultfn"):
+            # `let pat = e?;`: an `Err` ends the function with that error
+            inner = s[2][1]
+            if inner[0] == "mcall" and inner[2] in self.cfg.get("effcalls", {}):
+                return self.cps([("let", ("pvar", "__t"), inner), ("let", s[1], ("try", ("path", ["__t"])))] + rest, tail, K, borrows, optb)
+            return "(match %s with\n    | Except.error __e => %s\n    | Except.ok %s => (%s))" % (self.e(inner), self.ret("(Except.error __e)"), self.pat(s[1]), cont())
+        if s[0] == "expr" and s[1][0] == "try" and self.cfg.get("resultfn"):
+            return self.cps([("let", ("pwild",), s[1])] + rest, tail, K, borrows, optb)
         if s[0] == "let":
             pat, e = s[1], s[2]
             gm = self.getmut(e)
             if gm and pat[0] == "pvar":
                 V, k, unw = gm
                 x = ident(pat[1])
+                fns = self.cfg.get("borrowfns", {}).get(V)
                 if unw:      # a borrow of the entry that lives on: written through after every change
-                    return "let %s := (%s %s %s);\n    %s" % (x, self.mapfn(1), V, k, cont(dict(borrows, **{x: (V, k)})))
+                    return "let %s := (%s %s %s);\n    %s" % (x, (fns or self.cfg.get("mapfns", ("mapGet", "mapGetD", "mapSet")))[1], V, k, cont(dict(borrows, **{x: (V, k, fns)})))
                 return cont(borrows, dict(optb, **{pat[1]: (V, k)}))          # an optional borrow, matched later
             if e[0] == "mcall" and e[2] in self.cfg.get("effcalls", {}) and pat[0] == "pvar":
                 tmpl, muts = self.cfg["effcalls"][e[2]]
@@ -712,7 +731,8 @@ class Emit:
         """scrutinee text and, when it is a mutable borrow of a map entry / of an optional place, how to write it back"""
         gm = self.getmut(sc)
         if gm:
-            return "(%s %s %s)" % (self.mapfn(0), gm[0], gm[1]), ("map", gm[0], gm[1])
+            fns = self.cfg.get("borrowfns", {}).get(gm[0])
+            return "(%s %s %s)" % ((fns or self.cfg.get("mapfns", ("mapGet", "mapGetD", "mapSet")))[0], gm[0], gm[1]), ("map", gm[0], gm[1], fns)
         if sc[0] == "path" and len(sc[1]) == 1 and sc[1][0] in optb:
             V, k = optb[sc[1][0]]
             return "(%s %s %s)" % (self.mapfn(0), V, k), ("map", V, k)
@@ -736,7 +756,7 @@ class Emit:
         def bind(pat, back, b2):
             if back and pat[0] == "pctor" and pat[1][-1] == "Some" and pat[2] and pat[2][0][0] == "pvar":
                 y = ident(pat[2][0][1])
-                return dict(b2, **{y: (back[1], back[2])}) if back[0] == "map" else dict(b2, **{y: ("__opt__", back[1])})
+                return dict(b2, **{y: tuple(back[1:])}) if back[0] == "map" else dict(b2, **{y: ("__opt__", back[1])})
             return b2
         out = []
         for pat, blk in arms:
@@ -772,7 +792,8 @@ class Emit:
     def final(self, K, v, borrows):
         """the value of a path: borrows that are still open are written back first (entries of maps, then optional places)"""
         pre = "let __v := %s;\n    " % v                  # (entries of maps are written through after every change already)
-        for y, (V, k) in borrows.items():
+        for y, bv in borrows.items():
+            V, k = bv[0], bv[1]
             if V == "__opt__":
                 pre += "let %s := (some %s);\n    " % (k, y)
         return pre + K("__v")
@@ -1135,6 +1156,14 @@ STORE_MAP = [
          sig="{T : Type} (stores : List (List (Nat × T))) : List Nat"),
     dict(STORE_MAP_COMMON, name="store_get_executor", fn="get_executor", ret="{0}", sig="(num_shards id : Nat) : Nat"),
 ]
+
+STORE_ADD = [
+    dict(STORE_MAP_COMMON, name="store_add", fn="add", ret="({0}, stores)", resultfn=True,
+         sig="{T A F U E : Type} (buildFn : Nat × Nat × Option A × Option F × Option U → Except (Track.Err E) T)\n    (addObsFn : T → Nat → Option A → Option F → Option U → Except (Track.Err E) Unit × T)\n    (num_shards : Nat) (stores : List (List (Nat × T))) (track_id feature_class : Nat) (feature_attribute : Option A) (feature : Option F) (attributes_update : Option U) :\n    Except (Track.Err E) Unit × List (List (Nat × T))",
+         borrowfns={"tracks": ("shGet", "shGetD", "shPut")},
+         method=dict(STORE_MAP_COMMON["method"], new_track="{1}", observation="({0}, {1})", build="buildFn {0}"),
+         effcalls={"add_observation": ("addObsFn {0} {1} {2} {3} {4}", ["@0"])}),
+]
 # decision kernels over Nat / Rat (no field structure needed)
 GAL_METHOD = {"feature": "featureOf {0}", "attr": "{0}", "as_ref": "{0}", "unwrap": "{0}", "visual_quality": "quality {0}",
                  "partial_cmp": "cmpQ {0} {1}", "len": "List.length {0}", "iter": "{0}", "filter": "List.filter {1} {0}", "count": "List.length {0}"}
@@ -1241,7 +1270,7 @@ LOGIC = [
 def gen(repo, cfgs, header, footer):
     out, unread = [header], []
     for c in cfgs:
-        if c in LOGIC or c in TRACK or c in VOTING or c in TRACK_DIST or c in STORE or c in RECORDS or c in AUTOWASTE or c in VISVOTE or c in STORE_MAP:
+        if c in LOGIC or c in TRACK or c in VOTING or c in TRACK_DIST or c in STORE or c in RECORDS or c in AUTOWASTE or c in VISVOTE or c in STORE_MAP or c in STORE_ADD:
             c = dict(c, scalar=c.get("scalar", "Rat"))
         path = os.path.join(repo, "src", c["file"])
         try:
@@ -1407,6 +1436,10 @@ def lstSet {β : Type} (l : List β) (k : Nat) (v : β) : List β := l.set k v
 def shGet {β : Type} (sh : List (Nat × β)) (id : Nat) : Option β := (sh.find? (fun p => p.1 == id)).map (·.2)
 def shInsert {β : Type} (sh : List (Nat × β)) (id : Nat) (v : β) : List (Nat × β) := sh.filter (fun p => !(p.1 == id)) ++ [(id, v)]
 def shRemove {β : Type} (sh : List (Nat × β)) (id : Nat) : List (Nat × β) := sh.filter (fun p => !(p.1 == id))
+/-- write-back through `get_mut`: the entry is replaced where it is -/
+def shPut {β : Type} : List (Nat × β) → Nat → β → List (Nat × β)
+  | [], id, v => [(id, v)]
+  | p :: rest, id, v => if p.1 == id then (id, v) :: rest else p :: shPut rest id v
 """
 PRELUDE_SWAP = """/-- `slice::swap(i, j)` (indices in range: the code pushes an element first) -/
 def listSwap {α : Type} (l : List α) (i j : Nat) : List α :=
@@ -1465,7 +1498,7 @@ def main():
     jobs.append(("LRecord.lean", RECORDS, HEADER_L + PRELUDE_RECORD, "SimVerif.Gen.L"))
     jobs.append(("LAutoWaste.lean", AUTOWASTE, HEADER_L, "SimVerif.Gen.L"))
     jobs.append(("LVisVoting.lean", VISVOTE, "import SimVerif.Gen.LBase\nimport SimVerif.Model.Voting\n" + HEADER_L + PRELUDE_VISVOTE, "SimVerif.Gen.L"))
-    jobs.append(("LStoreMap.lean", STORE_MAP, "import SimVerif.Model.Track\n" + HEADER_L + PRELUDE_STOREMAP, "SimVerif.Gen.L"))
+    jobs.append(("LStoreMap.lean", STORE_MAP + STORE_ADD, "import SimVerif.Model.Track\n" + HEADER_L + PRELUDE_STOREMAP, "SimVerif.Gen.L"))
     jobs.append(("LTrackDist.lean", TRACK_DIST, "import SimVerif.Gen.LTrack\nimport SimVerif.Model.Track\n" + HEADER_L + PRELUDE_TRACKDIST, "SimVerif.Gen.L"))
     jobs.append(("LConstr.lean", [c for c in LOGIC if c["group"] == "Constr"], HEADER_L + PRELUDE_DEDUP, "SimVerif.Gen.L"))
     jobs.append(("LBase.lean", [], HEADER_L + PRELUDE_BASE + PRELUDE_MAP, "SimVerif.Gen.L"))
